@@ -79,6 +79,9 @@ def register(h):
     return h
 
 
+NPMAX = register(Helper("np.max", lambda col: np.max(col), 1, 0, None))
+
+
 def activate(mapping):
     """mapping: {real function object: stub}"""
     ACTIVE.clear()
@@ -120,3 +123,114 @@ def structures_utils_stubs():
         return real_unit_d(vec)
 
     return {real_norm: norm, real_unit: unit, real_norm_d: norm_d, real_unit_d: unit_d}
+
+
+# --------------------------------------------------------------------------------------------- aerodynamics.eval_mtx
+
+def _lead_broadcast(*arrs):
+    """broadcast arrays [..., k] (possibly different trailing shapes) over their leading '...' dimensions"""
+    arrs = [np.asarray(a) for a in arrs]
+    return arrs
+
+
+def eval_mtx_stubs():
+    import openaerostruct.aerodynamics.eval_mtx as E
+    fv, fv1, fv2 = E._compute_finite_vortex, E._compute_finite_vortex_deriv1, E._compute_finite_vortex_deriv2
+    sv, svd = E._compute_semi_infinite_vortex, E._compute_semi_infinite_vortex_deriv
+    I3 = np.eye(3)
+    hfv = register(Helper("em.finite_vortex", lambda r1, r2: fv(r1, r2), 2, 3,
+                          lambda r1, r2: [fv1(r1, r2, I3), fv2(r1, r2, I3)]))
+    hsv = register(Helper("em.semi_infinite_vortex", lambda u, r: sv(u, r), 2, 3,
+                          lambda u, r: [np.full((3, 3), np.nan), svd(u, r, I3)]))
+
+    def _apply(h, a, b):
+        a = np.asarray(a)
+        b = np.asarray(b)
+        lead = np.broadcast_shapes(a.shape[:-1], b.shape[:-1])
+        a = np.broadcast_to(a, lead + (3,))
+        b = np.broadcast_to(b, lead + (3,))
+        out = np.empty(lead + (3,), dtype=object).view(S.SymArray)
+        for idx in np.ndindex(*lead):
+            out[idx] = fun_vec(h, [a[idx], b[idx]])
+        return out
+
+    def _apply_d(h, a, b, deriv, pos):
+        a = np.asarray(a)
+        b = np.asarray(b)
+        deriv = np.asarray(deriv)
+        lead = np.broadcast_shapes(a.shape[:-1], b.shape[:-1], deriv.shape[:-2])
+        a = np.broadcast_to(a, lead + (3,))
+        b = np.broadcast_to(b, lead + (3,))
+        deriv = np.broadcast_to(deriv, lead + (3, 3))
+        out = np.empty(lead + (3, 3), dtype=object).view(S.SymArray)
+        for idx in np.ndindex(*lead):
+            J = dfun_mat(h, [a[idx], b[idx]], pos)           # [i, m] = d f_i / d arg_m
+            D = deriv[idx]
+            for i in range(3):
+                for j in range(3):
+                    t = RF({})
+                    for m in range(3):
+                        dm = D[m, j]
+                        if isinstance(dm, RF):
+                            if dm.p:
+                                t = t + J[i, m] * dm
+                        elif dm != 0:
+                            t = t + J[i, m] * dm
+                    out[idx + (i, j)] = t
+        return out
+
+    def s_fv(r1, r2):
+        if _isobj(r1) or _isobj(r2):
+            return _apply(hfv, r1, r2)
+        return fv(r1, r2)
+
+    def s_fv1(r1, r2, d):
+        if _isobj(r1) or _isobj(r2) or _isobj(d):
+            return _apply_d(hfv, r1, r2, d, 0)
+        return fv1(r1, r2, d)
+
+    def s_fv2(r1, r2, d):
+        if _isobj(r1) or _isobj(r2) or _isobj(d):
+            return _apply_d(hfv, r1, r2, d, 1)
+        return fv2(r1, r2, d)
+
+    def s_sv(u, r):
+        if _isobj(u) or _isobj(r):
+            return _apply(hsv, u, r)
+        return sv(u, r)
+
+    def s_svd(u, r, d):
+        if _isobj(u) or _isobj(r) or _isobj(d):
+            return _apply_d(hsv, u, r, d, 1)
+        return svd(u, r, d)
+
+    return {fv: s_fv, fv1: s_fv1, fv2: s_fv2, sv: s_sv, svd: s_svd}
+
+
+# --------------------------------------------------------------------------------------------- common.atmos_comp
+
+def atmos_stubs():
+    """the five Akima table interpolants and their scipy-provided derivatives (external contract, assumed):
+    X_interp_deriv(h) == d X_interp(h) / d h"""
+    import openaerostruct.common.atmos_comp as A
+    out = {}
+    for q in ("T", "P", "rho", "a", "viscosity"):
+        f = getattr(A, q + "_interp")
+        df = getattr(A, q + "_interp_deriv")
+        h = register(Helper("atm." + q, (lambda f: lambda x: np.atleast_1d(f(x)).reshape(-1)[:1])(f), 1, 0,
+                            (lambda df: lambda x: [np.atleast_2d(np.atleast_1d(df(x)).reshape(-1)[:1])])(df)))
+
+        def stub(x, h=h, f=f):
+            if _isobj(x):
+                xs = np.asarray(x, dtype=object).reshape(-1)
+                return np.array([fun_vec(h, [xs[i:i + 1]]) for i in range(len(xs))], dtype=object).view(S.SymArray).reshape(np.shape(x))
+            return f(x)
+
+        def dstub(x, h=h, df=df):
+            if _isobj(x):
+                xs = np.asarray(x, dtype=object).reshape(-1)
+                return np.array([dfun_mat(h, [xs[i:i + 1]], 0)[0, 0] for i in range(len(xs))], dtype=object).view(S.SymArray).reshape(np.shape(x))
+            return df(x)
+        out[f] = stub
+        out[df] = dstub
+    return out
